@@ -30,3 +30,10 @@ func VerifDebug(m *Middleware) bool {
 	defer m.mu.RUnlock()
 	return m.debug
 }
+
+// VerifState reports (configured?, debug) read in one critical section.
+func VerifState(m *Middleware) (configured, debug bool) {
+	m.mu.RLock()
+	defer m.mu.RUnlock()
+	return m.icfg != nil, m.debug
+}
